@@ -261,6 +261,44 @@ pub fn grid(path: &str, out_dir: &str) -> Result<Value, String> {
                     rep.samples.push(c.clone());
                 }
             }
+            "range" => {
+                let (hr, hc) = (c["hostR"].as_i64().unwrap_or(1) as i32, c["hostC"].as_i64().unwrap_or(1) as i32);
+                let a1 = join(&c["a1"]);
+                let ctx = CellReferenceRC { sheet: "Sheet1".to_string(), row: hr, column: hc };
+                let want = (
+                    c["r1"].as_i64().unwrap_or(0) as i32, c["c1"].as_i64().unwrap_or(0) as i32, c["absR1"].as_bool().unwrap_or(false), c["absC1"].as_bool().unwrap_or(false),
+                    c["r2"].as_i64().unwrap_or(0) as i32, c["c2"].as_i64().unwrap_or(0) as i32, c["absR2"].as_bool().unwrap_or(false), c["absC2"].as_bool().unwrap_or(false),
+                );
+                let decode = |n: &Node| -> Option<(i32, i32, bool, bool, i32, i32, bool, bool)> {
+                    if let Node::RangeKind { absolute_row1, absolute_column1, row1, column1, absolute_row2, absolute_column2, row2, column2, .. } = n {
+                        Some((
+                            if *absolute_row1 { *row1 } else { hr + *row1 }, if *absolute_column1 { *column1 } else { hc + *column1 }, *absolute_row1, *absolute_column1,
+                            if *absolute_row2 { *row2 } else { hr + *row2 }, if *absolute_column2 { *column2 } else { hc + *column2 }, *absolute_row2, *absolute_column2,
+                        ))
+                    } else {
+                        None
+                    }
+                };
+                let mut parser = Parser::new(vec!["Sheet1".to_string()], vec![], std::collections::HashMap::new(), locale, language);
+                let node = parser.parse(&a1, &ctx);
+                rep.n_checks += 1;
+                if decode(&node) != Some(want) {
+                    rep.mismatch("C22", "range-parse", "Parser::parse", c.clone(), format!("got {:?}", decode(&node)));
+                    continue;
+                }
+                for (label, text, r1c1) in [("range-a1-print-parse", to_localized_string(&node, &ctx, locale, language), false), ("range-r1c1-print-parse", to_rc_format(&node), true)] {
+                    rep.n_checks += 1;
+                    let mut p2 = Parser::new(vec!["Sheet1".to_string()], vec![], std::collections::HashMap::new(), locale, language);
+                    if r1c1 {
+                        p2.set_lexer_mode(LexerMode::R1C1);
+                    }
+                    let back = p2.parse(&text, &ctx);
+                    if decode(&back) != Some(want) {
+                        rep.mismatch("C22", label, "printer+parser", c.clone(), format!("printed {text} which parses to {:?}", decode(&back)));
+                    }
+                }
+                rep.nontrivial.insert(format!("range-{}-{}-{}-{}", want.2, want.3, want.6, want.7));
+            }
             "name" => {
                 let name = join(&c["chars"]);
                 let mut model = Model::new_empty("b", "en", "UTC", "en")?;
